@@ -72,26 +72,30 @@ def num_to_str(n: Optional[float], fmt: str) -> Optional[str]:
         fraction_length = int(sexagesimal_match.groups()[1])
         assert fraction_length in (3, 5, 6, 8, 9)
 
+        # the sign applies to the whole sexagesimal magnitude
+        sign = "-" if n < 0 else ""
+        n = abs(n)
         w = math.floor(n)
         m = (n - w) * 60
 
         if fraction_length == 3:
-            return f"{w}:{m:02.0f}"
+            return f"{sign}{w}:{m:02.0f}"
 
         if fraction_length == 5:
-            return f"{w}:{m:04.1f}"
+            return f"{sign}{w}:{m:04.1f}"
 
         mf = math.floor(m)
         s = (m - mf) * 60
         m = mf
 
         if fraction_length == 6:
-            return f"{w}:{m:02d}:{s:02.0f}"
+            return f"{sign}{w}:{m:02d}:{s:02.0f}"
 
         if fraction_length == 8:
-            return f"{w}:{m:02d}:{s:04.1f}"
+            return f"{sign}{w}:{m:02d}:{s:04.1f}"
 
         if fraction_length == 9:
-            return f"{w}:{m:02d}:{s:05.2f}"
+            return f"{sign}{w}:{m:02d}:{s:05.2f}"
 
-    return fmt % n
+    # width and blank/plus flags are display padding, not part of the number
+    return (fmt % n).strip().lstrip("+")
